@@ -40,6 +40,10 @@ def templates():
             ("aug_alias|ff+", "f", "_aug({f}, {f}, '+')[1]"), ("aug_alias|fi-", "f", "_aug({f}, {i}, '-')[1]"),
             ("aug_alias|fc+", "f", "_aug({f}, {c}, '+')[1]"), ("aug_alias|fk*", "f", "_aug({f}, {k}, '*')[1]"),
             ("aug_res|ff+", "f", "_aug({f}, {f}, '+')[0]"), ("aug_res|fb-", "f", "_aug({f}, {b}, '-')[0]"),
+            # the same object on both sides
+            ("same|div", "f", "(lambda t: t / t)({f})"), ("same|sub", "f", "(lambda t: t - t)({f})"), ("same|mul", "f", "(lambda t: t * t)({f})"),
+            ("same|lt", "b", "(lambda t: t < t)({f})"), ("same|eq", "b", "(lambda t: t == t)({f})"), ("same|floordiv", "f", "(lambda t: t // t)({f})"),
+            ("same|mod", "f", "(lambda t: t % t)({f})"),
             ("mulchain", "f", "{f} * {f} + {f} * {i} - {c}"), ("divchain", "f", "({f} + {i}) / ({f} * {f} + 1)")]
     return out
 
